@@ -85,7 +85,7 @@ class FCtx(object):
                 return self.model._module_const(r[2], r[1])
             if t[1].startswith("six."):
                 return self.model.fold(ast.parse(t[1], mode="eval").body, self.module)
-            if t[1] in ("str", "int", "float", "bool", "dict", "list", "set", "tuple"):
+            if t[1] in ("str", "int", "float", "bool", "dict", "list", "set", "tuple", "object", "bytes"):
                 return TypeMarker(t[1])
             raise NotConst("global %s" % t[1])
         if t[0] in ("list", "tuple", "set"):
@@ -278,6 +278,18 @@ def assertions_of(model, cls):
                             fields.append(a)
                 for fld in fields or ["<none>"]:
                     out.append(Assertion(cls, defcls, name, fld, "raise", excname, ev.guards, ev.lineno))
+                # explicit form of _assert_value:  if self.f not in TABLE: raise ValueError
+                conds = [g for g in ev.guards if g[0][0] != "exc"]
+                if conds and excname == "ValueError":
+                    t, pol = T.strip_not(conds[-1][0], conds[-1][1])
+                    if t[0] == "cmp" and len(t[1]) == 1 and ((t[1][0] == "not in" and pol) or (t[1][0] == "in" and not pol)):
+                        fld = cx.self_attr(t[2][0])
+                        if fld is not None:
+                            try:
+                                table = tuple(cx.const_of(t[2][1]))
+                                out.append(Assertion(cls, defcls, name, fld, "value", table, tuple(conds[:-1]), ev.lineno))
+                            except (NotConst, TypeError):
+                                pass
     return out
 
 
@@ -603,7 +615,12 @@ def writer_emits(model, fref, out_index=1):
         if ev.kind == "store":
             p = access_path(ev.target, OUT)
             if p is not None:
-                emits.append(Emit([cx.norm(x) for x in p], cx.norm(ev.value), ev.guards, ev.loops, ev))
+                if ev.value[0] == "local":
+                    attach.append((ev.value, p, ev.guards, ev.loops, ev))
+                    emits.append(Emit([cx.norm(x) for x in p], ("dict", ()) if T.unwrap(ev.value) == ("dict", ()) else cx.norm(ev.value),
+                                      ev.guards, ev.loops, ev))
+                else:
+                    emits.append(Emit([cx.norm(x) for x in p], cx.norm(ev.value), ev.guards, ev.loops, ev))
                 continue
             loc, keys = local_path(ev.target)
             if loc is not None:
